@@ -50,7 +50,7 @@ def run(tier, rep):
     r.stderr = ''
     r.stdout = ''
     r.returncode = 0
-    for group, nrep, nproc in ((0, reps, 1), (1, 2, 3 if tier == 'quick' else 12), (2, 2, 3 if tier == 'quick' else 12), (3, 2, 2 if tier == 'quick' else 8), (4, 1, 2 if tier == 'quick' else 8), (5, 1, 2 if tier == 'quick' else 8)):
+    for group, nrep, nproc in ((0, reps, 1), (1, 2, 3 if tier == 'quick' else 12), (2, 2, 3 if tier == 'quick' else 12), (3, 2, 2 if tier == 'quick' else 8), (4, 1, 2 if tier == 'quick' else 8), (5, 1, 2 if tier == 'quick' else 8), (6, 1, 1 if tier == 'quick' else 4), (7, 1, 2 if tier == 'quick' else 8)):
         for _ in range(nproc):
             rr = subprocess.run([texe, str(nrep), str(group)], env=env, timeout=3000, stdout=subprocess.PIPE, stderr=subprocess.PIPE, text=True)
             r.stderr += rr.stderr
